@@ -611,7 +611,7 @@ def gen_C11(rng):
     if rng.random() < 0.3:
         sc = contention(rng)
         sc['knobs']['latency'] = wchoice(rng, [('none', 2), ('random', 3), ('slow_first', 4)])
-        return sc
+        return _maybe_disturb(rng, sc)
     kind = rng.choice(['up', 'down', 'io'])
     if kind == 'up':
         sc = base(rng, [('upload', 1)], nmax=3, tight=True, maxsize=48)
@@ -632,6 +632,28 @@ def gen_C11(rng):
     sc['knobs']['adjuster']['max_parts'] = 10000
     if rng.random() < 0.5:
         sc['strategy'] = ['starve', rng.choice(['io', 'request']), 0.5]
+    _maybe_disturb(rng, sc)
+    return sc
+
+
+def _maybe_disturb(rng, sc, p=0.3):
+    """The bounds hold at any time - also after a transfer failed or was
+    cancelled part-way while the others keep going."""
+    if rng.random() >= p:
+        return sc
+    n = len(sc['transfers'])
+    i = rng.randrange(n)
+    t = sc['transfers'][i]
+    if rng.random() < 0.5:
+        est = est_steps(sc['transfers'], sc['config'])
+        sc['driver'] = [['submit', k] for k in range(n)] + \
+            [['wait_step', rng.randint(0, est)], ['cancel', i, True]] + \
+            [['result', k] for k in range(n)] + [['shutdown']]
+    elif t['type'] == 'upload' and is_multipart(t, sc['config']):
+        sc['faults'].append({'site': 's3', 'op': 'upload_part', 'key': 'k%d' % i,
+                             'part': rng.randint(1, 2), 'when': 'before', 'exc': 'client'})
+    elif t['type'] == 'download':
+        sc['faults'] += gen_fatal_fault(rng, i, t, sc['config'], ['s3', 'stream_fatal'])
     return sc
 
 
